@@ -47,7 +47,10 @@ Reduced(r) ==
   LET ix == SelectSeq([k \in 1 .. Len(r.ring) |-> k], LAMBDA k : r.ring[k] # Len(r.dc))
   IN [r EXCEPT !.ring = [j \in 1 .. Len(ix) |-> r.ring[ix[j]]], !.tokens = [j \in 1 .. Len(ix) |-> r.tokens[ix[j]]]]
 Look3Fail(r, e) ==
-  IF e.hosts = <<>> THEN {}
+  \* "remove": the highest-numbered node left and everything was healthy: the placement on the reduced
+  \* ring is required (the node that left owns and replicates nothing any more)
+  IF r.fault = "remove" THEN (IF LookFail(Reduced(r), e) = {} THEN {} ELSE {"stale-replica-map"})
+  ELSE IF e.hosts = <<>> THEN {}
   ELSE IF r.fault = "fetch-remove" /\ LookFail(Reduced(r), e) = {} THEN {}
   ELSE {"stale-replica-map"}
 
